@@ -13,7 +13,7 @@ RULE = ("Alignments as in C06 (kalign results on generated protein/nucleotide se
         "kalign's own rows. Non-trivial = width > 60 and >= 1 gap in row 0; distinct by hash of the case.")
 ASSUMPTIONS = ["the MSF header's total Check is recorded but not judged (the property names the per-row values)",
                "molecule type is judged only when a C13 premise determines the kind of the residues"]
-BUDGET = {"quick": dict(examples=500, workers=12, seconds=75), "thorough": dict(examples=1300, workers=16, seconds=600)}
+BUDGET = {"quick": dict(examples=300, workers=12, seconds=75), "thorough": dict(examples=1300, workers=16, seconds=600)}
 
 
 @st.composite
